@@ -6,7 +6,7 @@
   the theorems are about (PS/Theorems/*.lean), so the search oracle and the theorems share one
   definition.
 -/
-import PS.Model.Encode
+import PS.Model.Initialize
 namespace PS
 
 /-- the duration of a task as a term -/
@@ -35,5 +35,62 @@ def Task.timingF (t : Task) : Fml :=
 def specC01 (st : State) : List Fml :=
   st.tasks.map (·.timingF) ++
   (match st.horizon with | some h => [Fml.le (.var .horizon) (numT h)] | none => [])
+
+/-! ### C02 -/
+
+def noOverlapSpec (w : String) : List (String × Bool) → List Fml
+  | [] => []
+  | (ti, mi) :: rest =>
+      rest.map (fun (tk, mk) => Fml.not (.and [.lt (bS w ti mi) (bE w tk mk), .lt (bS w tk mk) (bE w ti mi)]))
+      ++ noOverlapSpec w rest
+
+def Req.spanF (t : Task) (r : Req) : Fml :=
+  let bs := bS r.worker t.name r.maybe
+  let be := bE r.worker t.name r.maybe
+  match r.sel with
+  | some s =>
+      .and [.imp (.bvar (.sel s r.worker)) (.and [.eq bs t.sVar, .eq be t.eVar]),
+            .imp (.not (.bvar (.sel s r.worker))) (.and [.eq bs be, .lt bs (numT 0)])]
+  | none =>
+      if r.dynamic then .and [.le t.sVar bs, .le bs be, .le be t.eVar]
+      else .and [.eq bs (.add t.sVar (numT (max 0 r.delayIn))), .eq be (.sub t.eVar (numT (max 0 r.earlyOut)))]
+
+def countF (k : CountKind) (flags : List Fml) (n : Nat) : Fml :=
+  let s := Term.sum (flags.map (fun f => Term.ite f (numT 1) (numT 0)))
+  match k with
+  | .exact => .eq s (numT n)
+  | .min => .ge s (numT n)
+  | .max => .le s (numT n)
+
+def specC02 (st : State) : List Fml :=
+  st.workers.flatMap (fun w => noOverlapSpec w.name (st.busyOf w.name)) ++
+  st.tasks.flatMap (fun t => (st.eventsOf t.name).flatMap (fun ev =>
+    ev.reqs.map (fun r => r.spanF t) ++
+    (match ev with
+     | .viaSelect _ s _ true => [countF s.kind s.flags s.n]
+     | _ => []))) ++
+  st.tasks.flatMap (fun t =>
+    if t.work > 0 && !(workTerms st t).isEmpty then [Fml.ge (.sum (workTerms st t)) (numT t.work)] else [])
+
+/-! ### C10 -/
+
+def allOf (os : List (List Fml)) : Fml := .and (os.map Fml.and)
+
+def CBody.meaningF : CBody → Option Fml
+  | .not_ o => some (.not (.and o))
+  | .or_ os => some (.or (os.map Fml.and))
+  | .and_ os => some (allOf os)
+  | .xor_ o1 o2 => some (.xor (.and o1) (.and o2))
+  | .implies c os => some (.imp c (allOf os))
+  | .ifThenElse c os1 os2 => some (.and [.imp c (allOf os1), .imp (.not c) (allOf os2)])
+  | .fromExpr f => some f
+  | .forceApplyN cs n k => some (countF k (cs.map (fun i => Fml.bvar (.applied i))) n)
+  | _ => none
+
+def specC10 (st : State) : List Fml :=
+  (st.constrs.filter (fun c => !c.operand)).filterMap (fun c =>
+    match c.body.meaningF with
+    | some f => some (if c.optional then Fml.imp (.bvar (.applied c.id)) f else f)
+    | none => none)
 
 end PS
